@@ -1,11 +1,27 @@
 """C17 - version compatibility check and version change: the compatibility checker consults the same version columns as
 the validator; the version of a file changes only behind the compatibility gate; the returned mask is the AND of every
 consulted mask."""
+import re
 from ir import Program, callee_of, callee_generic, has_field, ends_in_field
 from flow import origins, is_local_op, call_matches, must_pass, source_names, iter_uses, deep_sources
 import events as E
 from pairing import calls, dominated_by
 from framework import Check
+
+
+def header_rule(C, P, RULE):
+    fs = P.get('ArxmlFile::serialize')
+    sv_ = calls(fs, r'AutosarModelRaw>::set_version$')
+    si_ = calls(fs, r'impl Element>::serialize_internal$')
+    okh = len(sv_) == 1 and len(si_) >= 1
+    if okh:
+        okh = all(must_pass(fs, (0, 0), [p_], through={sv_[0]}) for p_ in si_)
+        n_, c_, f_ = deep_sources(fs, fs.blocks[sv_[0][0]]['term']['args'][1], depth=10)
+        okh = okh and 'ArxmlFileRaw.version' in f_
+        # the model lock for it is a blocking write (a try-lock would skip the update under contention)
+        okh = okh and not calls(fs, r'RwLock::<R, T>::try_write(_for|_until)?$')
+    C.check(okh, RULE, 'ArxmlFile::serialize|header-version-updated-on-every-path', 'ArxmlFile::serialize can produce the text without having written the file\'s version into the schema location of the root element (conditional or try-locked update): after set_version() the file may still be written, and load, as the old version',
+            '%s:%d' % (fs.file, fs.line), sample={'fn': 'ArxmlFile::serialize', 'step': 'model.write().set_version(self.version) before serialize_internal'})
 
 
 def run(ctx):
@@ -149,6 +165,15 @@ def run(ctx):
     # ArxmlFile::check_version_compatibility delegates to the root element walk with this file
     fc = P.get('ArxmlFile::check_version_compatibility')
     C.check(has(fc, r'impl Element>::check_version_compatibility$') and has(fc, r'AutosarModel>::root_element$'), 'C17-MUST-gate', 'file-check-delegates-to-root-walk', 'ArxmlFile::check_version_compatibility no longer walks from the root element')
+    # ... and it is the ROOT the walk starts at (its attributes and the version masks of its sub elements are judged in the walk of the
+    # parent, so a walk started at the children of the root skips them)
+    starts = []
+    for x in P.with_closures(fc):
+        for q in calls(x, r'impl Element>::check_version_compatibility$'):
+            cs = deep_sources(x, x.blocks[q[0]]['term']['args'][0], depth=10)[1]
+            starts.append((x, q, any(c.endswith('::root_element') for c in cs) and not any(re.search(r'::(sub_elements|elements_dfs\w*|next|get_sub_element\w*|content|nth|find\w*)$', c) for c in cs)))
+    C.check(bool(starts) and all(ok_ for _, _, ok_ in starts), 'C17-MUST-gate', 'file-check-starts-at-the-root', 'ArxmlFile::check_version_compatibility starts the compatibility walk at an element other than the root (e.g. at its sub elements): the version masks of the top-level elements and the attributes of the root are judged by nobody',
+            next((x.where(q) for x, q, ok_ in starts if not ok_), '%s:%d' % (fc.file, fc.line)), sample={'fn': 'ArxmlFile::check_version_compatibility', 'walk_receiver': 'model.root_element()'})
 
     # ---- mask ----
     ovl = {l for l, n in cw.names.items() if n == 'overall_version_mask'}
@@ -168,6 +193,17 @@ def run(ctx):
     # the returned tuple's mask is the accumulator; initial value is u32::MAX
     init = [s for pos, s in cw.iter_stmts() if s['k'] == 'assign' and s['dst']['l'] in ovl and s['rv']['k'] == 'use' and s['rv']['o'].get('i') == '4294967295']
     C.check(len(init) == 1, 'C17-SIB-mask', 'accumulator-starts-at-all-versions', 'the mask accumulator does not start at u32::MAX')
+    # every mask that is judged (compatible(mask)) or accumulated comes from the specification: a constant stands for "exists in every version",
+    # which the tables do not promise for any item (SHORT-NAME of some element types is younger than the type)
+    consts = []
+    judged = [(q, cw.blocks[q[0]]['term']['args'][1]) for q in calls(cw, r'AutosarVersion>?::compatible$') if len(cw.blocks[q[0]]['term']['args']) > 1] + [(q, o) for q, o in ands if o is not None]
+    for q, o in judged:
+        for og in origins(cw, o):
+            if og[0] == 'const':
+                consts.append((q, og[1].get('i') or str(og[1])))
+    C.check(not consts, 'C17-SIB-mask', 'walk|every-mask-comes-from-the-specification', 'the compatibility walk judges or accumulates a CONSTANT version mask (%s) instead of the mask the specification gives for the item: an item that the target version does not have is reported compatible, set_version succeeds and the file no longer loads strictly' % ', '.join(sorted({c for _, c in consts})),
+            cw.where(consts[0][0]) if consts else '', sample={'fn': 'check_version_compatibility', 'masks_judged_or_accumulated': len(judged), 'constant_masks': len(consts)})
+    C.floor('C17-SIB-mask.judged-masks', len(judged), 6)
     # every attribute is judged: an attribute that the target-version type does not know at all is reported too
     fa = [p_ for p_ in calls(cw, r'ElementType::find_attribute_spec$') if any(p_[0] in body for h, body in cw.natural_loops())]
     oku = False
@@ -212,18 +248,7 @@ def run(ctx):
     # the version a file is written with is the version stored in the file: serialize() rewrites the schema location of the root
     # from ArxmlFileRaw.version on EVERY path before the text is produced (set_version() itself only stores the version)
     C.rule('C17-MUST-header', 'ArxmlFile::serialize calls AutosarModelRaw::set_version(self.version) on every path before Element::serialize_internal: after a successful set_version() the serialized header always names the new version (no conditional / try-lock around the update)')
-    fs = P.get('ArxmlFile::serialize')
-    sv_ = calls(fs, r'AutosarModelRaw>::set_version$')
-    si_ = calls(fs, r'impl Element>::serialize_internal$')
-    okh = len(sv_) == 1 and len(si_) >= 1
-    if okh:
-        okh = all(must_pass(fs, (0, 0), [p_], through={sv_[0]}) for p_ in si_)
-        n_, c_, f_ = deep_sources(fs, fs.blocks[sv_[0][0]]['term']['args'][1], depth=10)
-        okh = okh and 'ArxmlFileRaw.version' in f_
-        # the model lock for it is a blocking write (a try-lock would skip the update under contention)
-        okh = okh and not calls(fs, r'RwLock::<R, T>::try_write(_for|_until)?$')
-    C.check(okh, 'C17-MUST-header', 'ArxmlFile::serialize|header-version-updated-on-every-path', 'ArxmlFile::serialize can produce the text without having written the file\'s version into the schema location of the root element (conditional or try-locked update): after set_version() the file may still be written, and load, as the old version',
-            '%s:%d' % (fs.file, fs.line), sample={'fn': 'ArxmlFile::serialize', 'step': 'model.write().set_version(self.version) before serialize_internal'})
+    header_rule(C, P, 'C17-MUST-header')
     return C.finish('Sibling agreement between the validator and the compatibility walk on the version columns (which accessors each calls on every acceptance path), '
                     'the gate on ArxmlFileRaw.version, and the accumulation of the returned mask. Does not decide the iff between "no incompatibility" and strict validation for all documents x 21^2 version pairs.')
 
